@@ -177,13 +177,26 @@ def audit(prop):
     return thms, log, rc == 0
 
 
+def rundir(prop):
+    """Private working directory of this run (several checks of one property — other seeds, other trees under
+    test — may run at the same time); removed by cleanup_rundir unless VERIF_KEEP=1."""
+    d = os.path.join(WORK, prop, "r%d" % os.getpid())
+    os.makedirs(d, exist_ok=True)
+    return d
+
+
+def cleanup_rundir(prop):
+    if os.environ.get("VERIF_KEEP") != "1":
+        shutil.rmtree(os.path.join(WORK, prop, "r%d" % os.getpid()), ignore_errors=True)
+
+
 def build_harness(prop):
-    out = os.path.join(WORK, prop, "vharness")
+    out = os.path.join(rundir(prop), "vharness")
     os.makedirs(os.path.dirname(out), exist_ok=True)
     # The harness is its own main module, built from a scratch copy whose go.mod points `replace` at
     # REPO (so VERIF_REPO=<scratch worktree> works) and whose go.sum is the repository's; nothing is
     # ever written into /repo.
-    hdir = os.path.join(WORK, prop, "harness_src")
+    hdir = os.path.join(rundir(prop), "harness_src")
     shutil.rmtree(hdir, ignore_errors=True)
     shutil.copytree(os.path.join(VERIF, "harness"), hdir)
     gm = open(os.path.join(hdir, "go.mod")).read().replace("=> /repo", "=> " + REPO)
@@ -208,7 +221,7 @@ def driver_path():
 def snapshot_driver(prop):
     """Call while holding the build lock, right after `lake build … driver`."""
     src = os.path.join(LEAN, ".lake", "build", "bin", "driver")
-    dst = os.path.join(WORK, prop, "driver")
+    dst = os.path.join(rundir(prop), "driver")
     os.makedirs(os.path.dirname(dst), exist_ok=True)
     try:
         shutil.copyfile(src, dst)
